@@ -12,7 +12,17 @@ graph which the SPECIFICATION prescribes for that mapping (`spec_its`, an indepe
 construction from the property's wording, with the bond objects of g / the rule so that the label
 strings networkx hashes are the ones the implementation would produce).  The driver looks a graph's
 hash up modulo edge order.  An implementation that hashes with fewer rounds therefore disagrees as
-soon as two results are 2-round-equal and 3-round-different (generator `wl_chain`).
+soon as two results are 2-round-equal and 3-round-different, and one that hashes with MORE rounds as soon
+as two results are 3-round-equal and 4-round-different (generator `wl_chain`: chains of 11-17 atoms).
+
+Taken from the code's documented behaviour (docstring of apply_rule: "Isomorphism is checked with 3
+iterations WL"; module semantics of the ITS label): the class notion of `unique` = networkx's WL hash with
+node label = symbol, edge label = the [g, h] pair, 3 rounds; and "a forming rule edge over two atoms that
+the reactant already joins gives [b, r] on the existing bond" (no second edge).
+
+Same-object histories (`RulePool`): long-lived ReactionRule objects are applied to several different
+reactants and to the same reactant OBJECT edited in place between calls; the specification of every call is
+computed from the inputs as they are at that call; rule.rc / rule.l / rule.r must be unchanged after it.
 """
 import json
 import os
@@ -72,7 +82,8 @@ def data_of_rc(g):
 
 
 def canon_its(g):
-    nodes = sorted([int(n), d.get(SYM)] for n, d in g.nodes(data=True))
+    # a node without a symbol travels as `_` (the driver turns it into the spec failure "nodes", with a replay)
+    nodes = sorted(([int(n), d.get(SYM)] for n, d in g.nodes(data=True)), key=lambda x: x[0])
     edges = []
     for u, v, d in g.edges(data=True):
         b = d[BOND]
@@ -146,15 +157,29 @@ def _vmsize():
 TIMEOUTS = [0]
 
 
-def impl_apply(g, rc, n, unique, conn, n_matches=None):
+def rule_state(rule):
+    import copy
+    return copy.deepcopy(rule.rc), copy.deepcopy(rule.l), copy.deepcopy(rule.r)
+
+
+def rule_unchanged(rule, state):
+    try:
+        return all(nx.utils.graphs_equal(a, b) and list(a.nodes) == list(b.nodes)
+                   for a, b in zip((rule.rc, rule.l, rule.r), state))
+    except Exception:
+        return False
+
+
+def impl_apply(g, rule, n, unique, conn, n_matches=None):
     """-> [sorted canonical results, g after the call]; a call that does not return (e.g. a change
-    that lets the matcher iterate over a graph it is mutating) is cut off and counts as a failure"""
+    that lets the matcher iterate over a graph it is mutating) is cut off and counts as a failure.
+    `rule` is a ReactionRule OBJECT (fresh or long-lived); rule.rc / rule.l / rule.r must be the same after the call."""
     import signal
-    from fgutils.synthesis.rule_application import ReactionRule, apply_rule
-    rule = ReactionRule(rc)
+    from fgutils.synthesis.rule_application import apply_rule
     import copy
     import resource
     g0 = copy.deepcopy(g)   # snapshot of the caller's graph
+    r0 = rule_state(rule)
     old = signal.signal(signal.SIGALRM, _alarm)
     soft, hard = resource.getrlimit(resource.RLIMIT_AS)
     cap = _vmsize() + (2 << 30)
@@ -176,15 +201,59 @@ def impl_apply(g, rc, n, unique, conn, n_matches=None):
     # shows a changed node/adjacency order), a marker otherwise (a modified graph may carry labels
     # that cannot be encoded)
     after = enc_graph(g) if nx.utils.graphs_equal(g, g0) else Atom("modified")
+    if not rule_unchanged(rule, r0):
+        after = Atom("rule_modified")     # the driver reports the clause input_untouched
     return [items, after]
 
 
-def build_case(gd, rcd, n, unique, conn, tags=(), in_domain=True, origin="generated"):
-    """-> Case or None (too many mappings)"""
+def as_kind(g, kind):
+    """the same reactant in another input form: a frozen graph, a sub-graph VIEW of a larger graph (what nx.freeze /
+    G.subgraph hand to a caller), or with extra irrelevant node / edge / graph attributes; node order, adjacency, symbols
+    and bond orders are those of g, so the specification (computed from the plain data) prescribes the same results;
+    an exception is a specification failure"""
+    if kind == "frozen":
+        return nx.freeze(g)
+    if kind == "extra_attrs":
+        # attributes the rule application has no business with (they are not part of the observable either)
+        for k, (v, d) in enumerate(g.nodes(data=True)):
+            d["charge"] = 0
+            d["hcount"] = k % 4
+            d["tags"] = ["x", k]
+        for k, (u, v, d) in enumerate(g.edges(data=True)):
+            d["stereo"] = "E" if k % 2 else None
+            d["weight"] = 2.5
+        g.graph["name"] = "reactant"
+        return g
+    if kind == "view":
+        big = g.copy()
+        base = max(list(g.nodes) + [0]) + 1
+        big.add_node(base, **{SYM: "C"})
+        big.add_node(base + 1, **{SYM: "O"})
+        big.add_edge(base, base + 1, **{BOND: 1})
+        if g.number_of_nodes():
+            big.add_edge(base, list(g.nodes)[0], **{BOND: 1})
+        return big.subgraph(list(g.nodes))
+    return g
+
+
+def build_case(gd, rcd, n, unique, conn, tags=(), in_domain=True, origin="generated", g=None, rule=None, history=None,
+               kind="plain"):
+    """-> Case or None (too many mappings).
+    g / rule: existing OBJECTS (a reactant graph that lives across calls and is edited in place, a long-lived
+    ReactionRule); the specification's inputs are read off them as they are NOW (gd / rcd are then ignored)."""
     from fgutils.its import split_its
-    g = mk_mol(gd)
-    rc = mk_rc(rcd)
-    rule_l, _ = split_its(rc)
+    from fgutils.synthesis.rule_application import ReactionRule
+    if g is None:
+        g = as_kind(mk_mol(gd), kind)
+    else:
+        gd = data_of_mol(g)
+    if rule is None:
+        rc = mk_rc(rcd)
+        rule = ReactionRule(rc)
+    else:
+        rc = rule.rc
+        rcd = data_of_rc(rc)
+    rule_l, _ = split_its(rc)         # the oracle splits rc itself: independent of rule.l / anything cached on the rule
     ms = vf2(g, rule_l)
     if len(ms) > MAX_MATCHES:
         return None
@@ -192,7 +261,7 @@ def build_case(gd, rcd, n, unique, conn, tags=(), in_domain=True, origin="genera
     gw = enc_graph(g)
     req = [Atom("C16"), Atom("apply"), gw, enc_graph(rc),
            [[[int(u), int(x)] for u, x in m.items()] for m in ms], hashes, n, bool(unique), bool(conn)]
-    out = call_impl(impl_apply, g, rc, n, unique, conn, len(ms))
+    out = call_impl(impl_apply, g, rule, n, unique, conn, len(ms))
     if isinstance(out, ImplError) and ("ImplTimeout" in out.text or "MemoryError" in out.text):
         TIMEOUTS[0] += 1
     nres = None if isinstance(out, ImplError) else len(out[0])
@@ -219,7 +288,10 @@ def build_case(gd, rcd, n, unique, conn, tags=(), in_domain=True, origin="genera
         else:
             tg.append("rc_edge:scalar")
     meta = {"g": gd, "rc": rcd, "n": n, "unique": unique, "connected_only": conn, "origin": origin,
-            "matches": len(ms)}
+            "matches": len(ms), "reactant_kind": kind}
+    tg.append("reactant_object=" + kind)
+    if history is not None:
+        meta["history"] = history
     return Case(req, out, in_domain=in_domain, meta=meta, nontrivial_key=key, tags=sorted(set(tg)))
 
 
@@ -352,20 +424,201 @@ REACTANT_STRINGS = ["CCCC", "C1OC1", "CC(=O)O.N", "C=C.C", "CCC", "C1CC1", "C=CC
                     "c1ccccc1", "C1CCC1C", "OCC(O)C", "C=O.N", "CC=CC", "C1=CC1.C", "NCC(=O)O", "C1CC1.C1OC1"]
 
 
+REACTANT_KINDS = ["plain"] * 6 + ["frozen", "view", "extra_attrs"]
+
+
 def flags(rng):
     return rng.choice([None, None, 0, 1, 2, 5]), rng.random() < 0.5, rng.random() < 0.4
 
 
 def wl_chain_case(rng):
-    """two results that 2 rounds of WL cannot tell apart and 3 rounds can: a long chain whose
-    changed bond sits 3 resp. 4 bonds from the end"""
-    n = rng.randint(11, 13)
+    """a long chain: the results for the changed bond 3 resp. 4 bonds from the end agree on 2 rounds of WL and differ on
+    3 (a hash with fewer rounds merges too much: 4 classes instead of 6); from 14 atoms on, the results for bonds 5 and 6
+    bonds from the end agree on 3 rounds and differ on 4 (a hash with more rounds merges too little: 14-15 atoms give 6
+    classes with 3 rounds, 7 with 4 or more; 16-17 atoms 6 resp. 8).  11-17 atoms: at most 32 mappings"""
+    n = rng.choice([11, 12, 13, 14, 15, 16, 17, 14, 16, 17])
     off = rng.choice([0, 0, 1, 5])
     gd = {"nodes": [[i + off, "C"] for i in range(n)],
           "edges": [[i + off, i + 1 + off, 2] for i in range(n - 1)]}
     lab = rng.choice([(2, 4), (2, 0), (2, 3)])
     rcd = {"nodes": [[0, "C"], [1, "C"]], "edges": [[0, 1, lab[0], lab[1]]]}
     return gd, rcd
+
+
+# ---------------------------------------------------------------------------
+# same-object histories: long-lived ReactionRule objects, reactant objects edited in place
+# ---------------------------------------------------------------------------
+def apply_mol_edit(g, e):
+    """in-place edit of a reactant graph; e is a plain list (recorded for the replay)"""
+    k = e[0]
+    if k == "set_bond":
+        g.edges[e[1], e[2]][BOND] = order(e[3])
+    elif k == "add_edge":
+        g.add_edge(e[1], e[2], **{BOND: order(e[3])})
+    elif k == "remove_edge":
+        g.remove_edge(e[1], e[2])
+    elif k == "add_atom":
+        g.add_node(e[1], **{SYM: e[2]})
+        g.add_edge(e[1], e[3], **{BOND: order(e[4])})
+    elif k == "remove_atom":
+        g.remove_node(e[1])
+    elif k == "set_symbol":
+        g.nodes[e[1]][SYM] = e[2]
+    else:
+        raise ValueError("unknown edit %r" % (e,))
+
+
+def random_mol_edit(rng, g):
+    nodes = list(g.nodes)
+    edges = list(g.edges)
+    for _ in range(8):
+        k = rng.choice(["set_bond", "set_bond", "add_edge", "remove_edge", "add_atom", "remove_atom", "set_symbol"])
+        if k == "set_bond" and edges:
+            u, v = rng.choice(edges)
+            b = rng.choice([x for x in (2, 4, 3) if order(x) != g.edges[u, v][BOND]])
+            return ["set_bond", int(u), int(v), b]
+        if k == "add_edge" and len(nodes) >= 2:
+            u, v = rng.sample(nodes, 2)
+            if not g.has_edge(u, v):
+                return ["add_edge", int(u), int(v), rng.choice(BONDS)]
+        if k == "remove_edge" and edges:
+            u, v = rng.choice(edges)
+            return ["remove_edge", int(u), int(v)]
+        if k == "add_atom" and nodes and len(nodes) < 12:
+            return ["add_atom", int(max(nodes)) + rng.choice([1, 1, 2, 5]), rng.choice(["C", "C", "O", "N"]), int(rng.choice(nodes)), rng.choice(BONDS)]
+        if k == "remove_atom" and len(nodes) >= 4:
+            return ["remove_atom", int(rng.choice(nodes))]
+        if k == "set_symbol" and nodes:
+            v = rng.choice(nodes)
+            s = rng.choice([x for x in ("C", "O", "N") if x != g.nodes[v][SYM]])
+            return ["set_symbol", int(v), s]
+    return None
+
+
+class LongLivedRule:
+    """one ReactionRule object and everything that has happened to it (events, replayable):
+         ["reactant", gd]        a new reactant object (built by mk_mol) becomes the current one
+         ["edit", e]             the current reactant object is edited in place
+         ["call", n, unique, connected_only]   apply_rule(current reactant object, THE rule object, ...)"""
+
+    def __init__(self, rcd):
+        from fgutils.synthesis.rule_application import ReactionRule
+        self.rcd0 = rcd
+        self.rule = ReactionRule(mk_rc(rcd))
+        self.events = []
+        self.calls = 0
+        self.g = None
+
+    def new_reactant(self, gd):
+        self.g = mk_mol(gd)
+        self.events.append(["reactant", gd])
+
+    def edit(self, e):
+        apply_mol_edit(self.g, e)
+        self.events.append(["edit", list(e)])
+
+    def call(self, n, unique, conn, tags=(), judge=True):
+        self.events.append(["call", n, bool(unique), bool(conn)])
+        self.calls += 1
+        if not judge:
+            call_impl(impl_apply, self.g, self.rule, n, unique, conn, None)
+            return None
+        hist = {"rc0": self.rcd0, "events": [list(x) for x in self.events]}
+        return build_case(None, None, n, unique, conn, tags=tags, origin="history", g=self.g, rule=self.rule, history=hist)
+
+
+def run_history(hist, tags=("replay",), judge_all=False):
+    """rebuild the rule object, run the recorded events in order -> the Cases of the judged calls
+    (all calls, or only the last one: the earlier ones are then merely executed)"""
+    ll = LongLivedRule(hist["rc0"])
+    ev = hist["events"]
+    out = []
+    for k, e in enumerate(ev):
+        if e[0] == "reactant":
+            ll.new_reactant(e[1])
+        elif e[0] == "edit":
+            ll.edit(e[1])
+        else:
+            cs = ll.call(e[1], e[2], e[3], tags=tags, judge=judge_all or k == len(ev) - 1)
+            if cs is not None:
+                out.append(cs)
+    return out
+
+
+class RulePool:
+    """a few long-lived rules; each is retired after 8-14 calls (the recorded history stays short)"""
+    SLOTS = 5
+
+    def __init__(self, rng):
+        self.rng = rng
+        self.slots = [None] * self.SLOTS
+        self.life = [0] * self.SLOTS
+
+    def fresh_rule(self):
+        from fgutils.parse import parse
+        rng = self.rng
+        t = rng.random()
+        if t < 0.5:
+            return data_of_rc(parse(rng.choice(RULE_STRINGS)))
+        if t < 0.9:
+            return gen_rule_from(rng, gen_reactant(rng))
+        return gen_rule_random(rng)
+
+    def step(self):
+        """-> list of Cases (0-3): one slot, the next reactant (new object or the current one edited in place), one call"""
+        from fgutils.parse import parse
+        rng = self.rng
+        k = rng.randrange(self.SLOTS)
+        if self.slots[k] is None or self.slots[k].calls >= self.life[k]:
+            self.slots[k] = LongLivedRule(self.fresh_rule())
+            self.life[k] = rng.randint(8, 14)
+        ll = self.slots[k]
+        how = "new_reactant"
+        if ll.g is not None and ll.g.number_of_nodes() > 0 and rng.random() < 0.5:
+            how = "same_reactant_edited" if rng.random() < 0.8 else "same_reactant_unchanged"
+        if how == "new_reactant":
+            t = rng.random()
+            if t < 0.35:
+                gd = data_of_mol(parse(rng.choice(REACTANT_STRINGS)))
+            elif t < 0.5:
+                gd, _ = wl_chain_case(rng)
+            else:
+                gd = gen_reactant(rng)
+                if rng.random() < 0.5:
+                    # a reactant this rule certainly matches: graft the rule's left side onto it
+                    gd = graft_left_side(rng, gd, ll.rcd0)
+            ll.new_reactant(gd)
+        elif how == "same_reactant_edited":
+            for _ in range(rng.choice([1, 1, 2])):
+                e = random_mol_edit(rng, ll.g)
+                if e is not None:
+                    ll.edit(e)
+        n, u, c = flags(rng)
+        cs = ll.call(n, u, c, tags=("gen:history", "history:" + how, "history:rule_call#%s" % (ll.calls if ll.calls < 4 else "4+")))
+        if cs is None:
+            # too many mappings for the driver: the call was not made; forget the event
+            ll.events.pop()
+            ll.calls -= 1
+            return []
+        return [cs]
+
+
+def graft_left_side(rng, gd, rcd):
+    """add a copy of the rule's left side (atoms + bonds with left order != 0) to the reactant, joined to it by one bond"""
+    nodes = [list(x) for x in gd["nodes"]]
+    edges = [list(x) for x in gd["edges"]]
+    base = max([n for n, _ in nodes] + [0]) + 1
+    ren = {}
+    for i, (n, s) in enumerate(rcd["nodes"]):
+        ren[n] = base + i
+        nodes.append([base + i, s])
+    for e in rcd["edges"]:
+        lo = e[2]
+        if lo != 0:
+            edges.append([ren[e[0]], ren[e[1]], lo])
+    if gd["nodes"] and rng.random() < 0.7:
+        edges.append([rng.choice(gd["nodes"])[0], base, 2])
+    return {"nodes": nodes, "edges": edges}
 
 
 # ---------------------------------------------------------------------------
@@ -468,14 +721,18 @@ def corpus_cases():
         ("C1CC1.C1OC1", "C<1,0>O", 5, True, False),
     ]
     for r, ru, n, u, c in items:
-        cs = build_case(data_of_mol(parse(r)), data_of_rc(parse(ru)), n, u, c, tags=("corpus",), origin="corpus %s / %s" % (r, ru))
-        if cs is not None:
-            cases.append(cs)
+        for kind in ("plain", "frozen", "view", "extra_attrs"):      # the same reactant in every input form
+            cs = build_case(data_of_mol(parse(r)), data_of_rc(parse(ru)), n, u, c, tags=("corpus",), origin="corpus %s / %s" % (r, ru), kind=kind)
+            if cs is not None:
+                cases.append(cs)
     d = os.path.join(os.path.dirname(os.path.dirname(os.path.abspath(__file__))), "corpus", "C16")
     if os.path.isdir(d):
         for fn in sorted(os.listdir(d)):
             if fn.endswith(".json"):
                 j = json.load(open(os.path.join(d, fn)))
+                if "history" in j:
+                    cases += run_history(j["history"], tags=("corpus", "gen:history"), judge_all=True)
+                    continue
                 cs = build_case(j["g"], j["rc"], j["n"], j["unique"], j["connected_only"], tags=("corpus",), origin="corpus/" + fn)
                 if cs is not None:
                     cases.append(cs)
@@ -486,9 +743,16 @@ def gen_cases(rng, count):
     from fgutils.parse import parse
     cases = []
     skipped = 0
+    pool = RulePool(rng)
     while len(cases) < count:
         if TIMEOUTS[0] >= 8:
             break   # the implementation hangs: the cases collected so far already decide the verdict
+        if rng.random() < 0.25:
+            got = pool.step()
+            if not got:
+                skipped += 1
+            cases += got
+            continue
         t = rng.random()
         n, u, c = flags(rng)
         if t < 0.62:
@@ -512,7 +776,7 @@ def gen_cases(rng, count):
         else:
             cases.append(gml_case(rng))
             continue
-        cs = build_case(gd, rcd, n, u, c, tags=tags)
+        cs = build_case(gd, rcd, n, u, c, tags=tags, kind=rng.choice(REACTANT_KINDS))
         if cs is None:
             skipped += 1
             continue
@@ -593,6 +857,12 @@ def run(tier, seed):
     r.extra_cov["gml_text_layer"] = "test (not proved): %d rendered rules parsed by parse_gml_dpo_rule and compared with " \
                                     "the model toRcGraph / the proved-sound rcSpecB" % r.dist.get("tag:gml", 0)
     r.extra_cov["failing_clauses"] = sorted({o.extra[1] for o in r.spec_failures if len(o.extra) > 1})
+    # the hypotheses of C16.specCheck_sound / C16.applyRule_spec (C16.inputsWFB, proved sound: C16.inputsWFB_sound) are
+    # evaluated by the driver on every request; a generated in-domain input outside them is a harness defect (exit 2)
+    outside_wf = [o for o in outs if o.ok_reply and o.case.in_domain and o.case.req[1] == "apply"
+                  and (len(o.extra) < 5 or o.extra[4] != "1")]
+    r.extra_cov["inputs_violating_theorem_hypotheses"] = len(outside_wf)
+    r.extra_cov["same_object_history_calls"] = r.dist.get("tag:gen:history", 0)
     r.assumptions = [
         "networkx GraphMatcher.subgraph_monomorphisms_iter (VF2) enters the model as the parameter `matches`; "
         "assumed contract C16.MatchesContract (each label- and bond-preserving monomorphism of rule.l into g exactly once), "
@@ -602,17 +872,36 @@ def run(tier, seed):
         "graphs are modelled as edge lists with unordered lookup (adjacency order is not observed by the property)",
         "ITS(its) numbers the atoms (complete_aam, property C20): the atom map is not part of C16's observable",
         "the GML text layer (six regexes) is glue: tested (rendered rules vs model toRcGraph), not proved",
+        "taken from the code's documented behaviour, not derived independently: (1) the class notion of `unique` = networkx WL hash with node label = symbol, "
+        "edge label = the [g, h] pair, 3 rounds (docstring of apply_rule); (2) a forming rule edge over two atoms the reactant already joins gives [b, r] on the "
+        "existing bond (no second edge)",
+        "the hypotheses of C16.specCheck_sound (g.nodeIds.Nodup, (mkRule rc).l.nodeIds.Nodup) and C16.applyRule_spec (InputsWF) are evaluated by the driver on every "
+        "request (C16.inputsWFB, sound by C16.inputsWFB_sound); generated in-domain inputs outside them: see inputs_violating_theorem_hypotheses (must be 0)",
+        "same-object histories: the model has no state; the request of every call is built from the reactant object and rule.rc as they are at the time of the call, "
+        "the oracle (VF2 mappings, WL hashes of the prescribed graphs) splits rule.rc itself and never reads rule.l / rule.r or anything stored on the rule object",
     ]
     rc = r.finish(
         level="proof",
-        rule="random reactants (3-10 atoms, C/N/O/H, orders 1/2/1.5, trees and rings, 1-3 molecules, sparse/shuffled ids) x rules "
+        rule="random reactants (3-10 atoms, C/N/O/H, orders 1/2/1.5, trees and rings, 1-3 molecules, sparse/shuffled ids; handed over as a plain nx.Graph, "
+             "a frozen graph, a sub-graph view of a larger graph, or with extra irrelevant attributes) x rules "
              "derived from the reactant (2-4 nodes, 1-4 edges: context/breaking/order change/formation, bonds of g between matched "
-             "atoms left unmentioned) + random rules + parsed strings + 11-13 atom chains (WL rounds) x unique x connected_only x "
-             "n in {None,0,1,2,5}; GML rendering of random L/C/R; non-trivial = at least one mapping, distinct by (g, rc, flags)",
+             "atoms left unmentioned) + random rules + parsed strings + 11-17 atom chains (WL rounds: 2 vs 3 from 12 atoms, 3 vs 4 from 14 atoms on) x unique x "
+             "connected_only x n in {None,0,1,2,5}; same-object histories (25% of the apply cases): a pool of 5 long-lived ReactionRule objects, each applied 8-14 times "
+             "to new reactant objects (parsed strings, chains, random reactants, reactants with the rule's left side grafted on) and to the SAME reactant object edited "
+             "in place between calls (bond order, edge added/removed, atom added/removed, symbol), rule.rc/l/r compared with a snapshot after every call; "
+             "GML rendering of random L/C/R; non-trivial = at least one mapping, distinct by (g, rc, flags)",
         checker_cmd="cd lean && lake build FGVerif.Proofs.C16 && lake env lean FGVerif/Audit/C16.lean",
         explanation="theorems in lean/FGVerif/Proofs/C16.lean about Model/C16.lean; model tied to apply_rule / to_rc_graph by "
                     "differential testing; executable spec C16.specClause (own monomorphism enumeration) applied to every "
-                    "implementation output")
+                    "implementation output. The class notion of `unique` (WL labels = symbol and [g, h] pair, 3 rounds) and 'formation over an "
+                    "existing bond gives [b, r]' are taken from the code's documented behaviour. A result node without a symbol or a rule / reactant "
+                    "object changed by the call is a specification failure (clauses nodes / input_untouched) with a replay, not a decode error")
+    if outside_wf:
+        o = outside_wf[0]
+        p = r.write_replay("machinery", "inputs_outside_hypotheses", r.outcome_payload(o))
+        print("ERROR property=C16 %d generated in-domain input(s) violate the hypotheses of the theorems (C16.inputsWFB = false): "
+              "harness defect, not a verdict about the code; first: %s" % (len(outside_wf), p))
+        return 2 if rc == 0 else rc
     if model_rejected and not broken:
         # C16.applyRule_spec says this cannot happen for well-formed inputs under the contract of VF2
         o = model_rejected[0]
@@ -655,7 +944,12 @@ def replay(path):
             return 2
         print("replayed input satisfies the property on the current tree")
         return 0
-    cs = build_case(meta["g"], meta["rc"], meta["n"], meta["unique"], meta["connected_only"], origin="replay")
+    if meta.get("history"):
+        print("same-object history of the rule: %d events, the last call is judged" % len(meta["history"]["events"]))
+        cs = run_history(meta["history"])[-1]
+    else:
+        cs = build_case(meta["g"], meta["rc"], meta["n"], meta["unique"], meta["connected_only"], origin="replay",
+                        kind=meta.get("reactant_kind", "plain"))
     outs = r.evaluate([cs])
     o = outs[0]
     print("request:", cs.line()[:2000])
